@@ -7,13 +7,26 @@ PROP = dict(
                     "in the thorough tier) through HandleReader, HandleReadWriter and the HTTP transport; every output is checked against "
                     "the response grammar and against the outcomes a reference model allows; batches also under -race with pool sizes 1 and 8. "
                     "Samples the input space, does not prove absence. The native fuzzer runs without coverage guidance (the driver builds "
-                    "the test binary without -fuzz instrumentation), i.e. as a mutation fuzzer over a 120-entry seed corpus."),
-        rule=("rapid grammar: each envelope member valid/missing/ill-typed, 21 harness methods covering every handler shape the server "
+                    "the test binary without -fuzz instrumentation), i.e. as a mutation fuzzer over a 188-entry seed corpus (incl. 68 requests to context-taking matrix methods with the optional tail left out)."),
+        rule=("rapid grammar: each envelope member valid/missing/ill-typed, 21 hand-written harness methods covering every handler shape the server "
               "accepts (no params, required only, optional tail, all optional, context first, validated struct / *struct / []struct / "
               "map[string]*struct / map[string]struct, optional by-value validated struct, struct with a 'required' tag, a value type whose "
               "UnmarshalJSON rejects null, json.RawMessage, 2- and 3-tuple returns, handler error, internal error, nil / zero-valued results, "
-              "escaped method name), params good/omitted/too few/too many/unknown name/missing required/ill-typed/validator failure/"
-              "scalar/null, an explicit null for any one parameter (every parameter kind), by position or by name, ids of every JSON type, batches of 0-30 (race: 1-40, up to 4 concurrent) entries, "
+              "escaped method name) plus the handler-SIGNATURE MATRIX: handlers built with reflect.MakeFunc from a specification "
+              "([leading context.Context,] 0-4 parameters, a required prefix and an optional tail, each parameter one of 15 Go types: int, string, "
+              "bool, *int, *string, []int, []string, validated struct, *struct, []struct, map[string]*struct, map[string]struct, struct with a "
+              "required field, json.RawMessage, felt-like type with its own UnmarshalJSON) that return the arguments they received; 56 of them "
+              "(every parameter count 1-4 x every required/optional split x 2 assignments of pairwise different types x with/without context) "
+              "are registered on every harness server and drawn by all generators (2 of 5 calls), the rest of the space is drawn per case by "
+              "TestPropSignatureMatrix, which registers the drawn signature on the live server and sends EVERY positional prefix down to the "
+              "required parameters, EVERY subset of the optional names, and params omitted/[]/{} when nothing is required - each alone (same "
+              "id: a prefix and the named request supplying the same parameters must answer identically) and all as one shuffled batch, over "
+              "HandleReader / HandleReadWriter / HTTP; the model states that an unsupplied optional parameter is the zero value of its own "
+              "type whatever its neighbours' types and whether or not a context precedes. Labels 'omitted-optional-tail(positional):"
+              "ctx-handler|plain-handler[,type-differs-from-preceding-argument]' and 'omitted-optional-subset(named)' count the cases that hold "
+              "such a request (about 23% / 21% / 55% of the TestPropSignatureMatrix cases, 1.1% / 2.3% of the TestPropStructured cases). "
+              "Params good/omitted/too few/too many/unknown name/missing required/ill-typed/validator failure/"
+              "scalar/null, an explicit null for any one parameter (every parameter kind), by position (any prefix down to the required ones) or by name (any subset of the optional ones), ids of every JSON type, batches of 0-30 (race: 1-40, up to 4 concurrent) entries, "
               "nested arrays, duplicate/extra members, leading whitespace up to 5000 bytes, trailing bytes, byte-level damage. "
               "Non-trivial = the input is valid JSON containing >= 1 well-formed request object (dispatcher reached); mixed-batch = "
               ">= 3 entries of >= 2 classes; distinct = SHA-256 of transport + input bytes."),
